@@ -315,6 +315,31 @@ def check_moving_average(chk, prog, sim, maxlen):
         chk.violation("C12.siblings", key, "generic and Quantity moving averages differ on cases %s" % diff[:3])
 
 
+def check_powf_providers(chk):
+    """The EWMA weight is 1 - (1 - smoothing)^dt through the crate's own powf(x, y) wrapper, which exists once per float
+    provider (std, micromath; libm re-exports its function).  Each local wrapper must compute x^y in operand order."""
+    import dimkit as Q
+    for cfg in ("K1", "K2", "K3"):
+        p = load_config(cfg)
+        if cfg not in chk.configs:
+            chk.configs.append(cfg)
+        key = "ewma:powf-provider@" + cfg
+        chk.obligation(key, "powf wrapper of configuration " + cfg)
+        ok = True
+        s2 = S.Sim(p)
+        for f in [f for f in p.by_name.get("powf", []) if f["kind"] == "Fn"]:
+            chk.analysed(f["pretty"] + "@" + cfg)
+            ls = Q.run_simple(s2, f, [Sym("x", prim("f32")), Sym("y", prim("f32"))])
+            chk.evaluated(len(ls), nontrivial=(key, f["pretty"]))
+            r = s2.resolve(ls[0].state, ls[0].value) if len(ls) == 1 and ls[0].kind == "return" else None
+            if r != Term("powf", (Sym("x"), Sym("y"))):
+                chk.violation("C12.value", "ewma:powf-provider@%s" % cfg, "[configuration %s] the power function used for the EWMA weight computes %r, expected powf(x, y): the weight is no longer 1 - (1 - smoothing)^dt" % (cfg, r),
+                              fn=f["pretty"], file=loc(f["span"]))
+                ok = False
+        if ok:
+            chk.discharge(key)
+
+
 def run(chk):
     prog = load_config("K1")
     chk.configs.append("K1")
@@ -327,6 +352,7 @@ def run(chk):
     sim = S.Sim(prog)
     check_ewma(chk, prog, sim)
     check_moving_average(chk, prog, sim, 3 if chk.tier == "quick" else 4)
+    check_powf_providers(chk)
     chk.assume("real-arithmetic model; powf as real power", "moving-average queue length bounded in the pre-state (the trimming loop then runs on concrete lists)",
                "timestamps non-decreasing, window > 0 (the property's own preconditions)", "convexity bounds in f32 and L in [0,1] are not decided")
     chk.extra["std_models"] = sorted(sim.stats["models_used"])
